@@ -78,8 +78,13 @@ def check_string(s):
     return res
 
 
+def _mark(t):
+    return t + "|"
+
+
 def check_steps(s, sl):
     exp = s
+    sl = [(_mark if x == "<callable>" else x) for x in sl]
     try:
         for stp in sl:
             exp = clean_text(exp, [stp])
@@ -207,6 +212,13 @@ def shards(tier, seed):
     return out
 
 
+def opt_shards(tier):
+    out = [{"part": "bad"}]
+    for pre in itertools.product(range(len(A)), repeat=2):
+        out.append({"part": "strings", "prefix": list(pre), "n": 5})
+    return out
+
+
 def run_shard(sh):
     st = Stats()
     p = st.part(sh["part"])
@@ -244,7 +256,8 @@ def run_shard(sh):
     if sh["part"] == "steps":
         strs = [""] + ["".join(t) for k in range(1, 5) for t in itertools.product(A, repeat=k)]
         strs = strs[:3000]
-        lists = [sl for k in range(0, 4) for sl in itertools.product(STEPS, repeat=k)]
+        # step lists over the three named cleaners and a custom callable (the documented alternative to a name)
+        lists = [sl for k in range(0, 4) for sl in itertools.product(STEPS + ["<callable>"], repeat=k)]
         for s in strs[sh["r"] :: sh["n"]]:
             for sl in lists:
                 res = check_steps(s, sl)
